@@ -71,15 +71,18 @@ nodeLoop:
 				continue nodeLoop
 			}
 
-			skip := false
-			ast.Inspect(item.Body, func(node ast.Node) bool {
-				if branch, ok := node.(*ast.BranchStmt); ok && branch.Tok != token.GOTO {
-					skip = true
-					return false
-				}
-				return true
-			})
-			if skip {
+			hasBranch := func(body *ast.BlockStmt) bool {
+				skip := false
+				ast.Inspect(body, func(node ast.Node) bool {
+					if branch, ok := node.(*ast.BranchStmt); ok && branch.Tok != token.GOTO {
+						skip = true
+						return false
+					}
+					return true
+				})
+				return skip
+			}
+			if hasBranch(item.Body) {
 				continue nodeLoop
 			}
 
@@ -91,7 +94,13 @@ nodeLoop:
 			switch els := item.Else.(type) {
 			case *ast.IfStmt:
 				item = els
-			case *ast.BlockStmt, nil:
+			case *ast.BlockStmt:
+				// a break in the final else would bind to the new switch
+				if hasBranch(els) {
+					continue nodeLoop
+				}
+				item = nil
+			case nil:
 				item = nil
 			default:
 				panic(fmt.Sprintf("unreachable: %T", els))
